@@ -168,7 +168,11 @@ func GHASH(H []byte, A []byte, C []byte) (X []byte) {
 	Cn := make([]byte, u/8)
 	copy(Cn[:], C[(n-1)*BlockSize:])
 	Cn = append(Cn, zeros...)
-	copy(X[(m+n)*BlockSize:(m+n)*BlockSize+BlockSize], multiplication(addition(X[(m+n-1)*BlockSize:(m+n-1)*BlockSize+BlockSize], Cn), H))
+	if u == 0 { // C is empty: it contributes no block, X(m+n) = X(m)
+		copy(X[(m+n)*BlockSize:(m+n)*BlockSize+BlockSize], X[(m+n-1)*BlockSize:(m+n-1)*BlockSize+BlockSize])
+	} else {
+		copy(X[(m+n)*BlockSize:(m+n)*BlockSize+BlockSize], multiplication(addition(X[(m+n-1)*BlockSize:(m+n-1)*BlockSize+BlockSize], Cn), H))
+	}
 
 	//i=m+n+1
 	var lenAB []byte
@@ -184,8 +188,9 @@ func GHASH(H []byte, A []byte, C []byte) (X []byte) {
 		data[7] = byte((len >> 0) & 0xff)
 		return data
 	}
-	lenAB = append(lenAB, calculateLenToBytes(len(A))...)
-	lenAB = append(lenAB, calculateLenToBytes(len(C))...)
+	// len(A) || len(C), both as 64-bit BIT counts
+	lenAB = append(lenAB, calculateLenToBytes(len(A)*8)...)
+	lenAB = append(lenAB, calculateLenToBytes(len(C)*8)...)
 	copy(X[(m+n+1)*BlockSize:(m+n+1)*BlockSize+BlockSize], multiplication(addition(X[(m+n)*BlockSize:(m+n)*BlockSize+BlockSize], lenAB), H))
 	return X[(m+n+1)*BlockSize : (m+n+1)*BlockSize+BlockSize]
 }
